@@ -217,6 +217,21 @@ def ep_cases(rng, tier):
                 steps.append("%d:options" % (t,)); t += 500
             steps.append("%d:options" % (t + 70000,))
             cases.append(["ep%d" % n, "c02", "ep", "uas", "-", ",".join(steps), str(rng.randrange(1, 1000))]); n += 1
+    # the top of the CSeq range: dialogs created by an INVITE a few numbers below 2^32-1, then in-dialog requests up to the limit in
+    # every order (a request ahead of a gap is parked, the gap filler releases it: the release loop must stop at the limit)
+    TOP = 4294967295
+    k = 0
+    for base in (TOP - 3, TOP - 2, TOP - 1, TOP):
+        nums = list(range(base + 1, TOP + 1)) + [TOP]
+        orders = [nums, list(reversed(nums))] + [rng.sample(nums, len(nums)) for _ in range(2)]
+        for order in orders:
+            t = 1000
+            steps = ["0:inv,100:accept,200:ack"]
+            for c in order:
+                steps.append("%d:raw:%s" % (t, _indialog(rng.choice([b"INFO", b"UPDATE", b"FOO"]), c, branch=b"z9hG4bKtop%d" % t).hex())); t += 300
+            steps.append("%d:options" % t)
+            steps.append("%d:options" % (t + 70000,))
+            cases.append(["ep%d" % n, "c02", "ep", "uas", "cseq=%d" % base, ",".join(steps), str(1 + k)]); n += 1; k += 1
     # caller side: hostile values in the answers to our INVITE
     for tmr in (b"Supported: timer\r\nSession-Expires: 1;refresher=uac\r\n", b"Supported: timer\r\nSession-Expires: 4294967295;refresher=uas\r\n", b"Require: timer\r\nSession-Expires: 0\r\n",
                 b"Session-Expires: 99999999999999\r\n", b"Min-SE: 4294967295\r\n", b"RSeq: 4294967295\r\nRequire: 100rel\r\n", b"RSeq: 99999999999\r\nRequire: 100rel\r\n", b"Contact: <\r\n",
